@@ -101,6 +101,7 @@ func NewGoMetricsMetricRegistry(
 func (r *MetricRegistry) Start() {
 	r.mu.Lock()
 	if !r.started {
+		r.started = true
 		r.wg.Add(1)
 		go func() {
 			defer r.wg.Done()
